@@ -40,7 +40,14 @@ def load_ref():
                 for t in head[1:]:
                     k, v = t.split('=')
                     names[k] = v.split('|')
-                ent = {'kind': 'sse', 'names': names, 'flags': set(parts[1:]), 'line': ln, 'text': line}
+                flags = set(x for x in parts[1:] if not x.startswith('ops '))
+                opsd = {}
+                for x in parts[1:]:
+                    if x.startswith('ops '):
+                        for t in x.split()[1:]:
+                            k, v = t.split('=')
+                            opsd[k] = [alt.split(',') for alt in v.split('|')]
+                ent = {'kind': 'sse', 'names': names, 'flags': flags, 'ops': opsd, 'line': ln, 'text': line}
             else:
                 names = head[0].split('|')
                 sigtxt = right[len(head[0]):].strip()
@@ -627,8 +634,68 @@ def run(ctx, report):
     else:
         R4.violation('modrm-split', 'modrm-split', 'modrm(c) no longer splits the byte into mod (bits 7-6), reg (5-3), rm (2-0): %s' % (u(rt[0].value) if rt else '?'), where(arch, mrm))
 
+    # ---------------------------------------------------------------- D5 register files of MMX/SSE operands
+    R5 = report.rule('C01.D5', 'MMX/SSE operands come from the register file IA-32 specifies for each mandatory prefix', floor=300)
+    KIND_G = {X.afs.xmm: 'V', X.afs.mm: 'P', X.afs.u32: 'G'}
+    KIND_E = {X.afs.xmm: 'W', X.afs.mm: 'Q', X.afs.u32: 'E'}
+    PBYTES = {'np': [], '66': [0x66], 'f2': [0xF2], 'f3': [0xF3]}
+    chain = X._dis_mmx_nodes()[0]
+
+    def sig_ok(msig, alts):
+        for alt in alts:
+            if len(alt) != len(msig):
+                continue
+            if all(r == m or (r == 'M' and m in ('W', 'Q', 'E')) or (r == 'U' and m == 'W') or (r == 'N' and m == 'Q') for r, m in zip(alt, msig)):
+                return True
+        return False
+    for key in sorted(U, key=lambda k: (k[0], k[1])):
+        ent = ref.get(key)
+        if ent is None or ent['kind'] != 'sse':
+            continue
+        kstr = '%s%s' % (' '.join('%02X' % b for b in key[0]), (' ' + key[1]) if key[1] else '')
+        done = set()
+        for c in U[key]:
+            if not c.modifs.get(mmx_key) or c.row.idx in done:
+                continue
+            done.add(c.row.idx)
+            digit = isinstance(c.row.afs, int)
+            for pk in PFX:
+                if pk not in ent['names']:
+                    continue
+                r = X.dis_mmx_modes(c.name, PBYTES[pk], bool(c.modifs.get(E['sw'])), digit=digit)
+                inst = '%s %s prefix %s' % (kstr, c.name, pk)
+                npname = ent['names'][pk][0]
+                if pk in ent['ops']:
+                    want = ent['ops'][pk]
+                else:
+                    base = ['P', 'Q'] if (pk == 'np' and npname.startswith('p')) else ['V', 'W']
+                    if 'store' in ent['flags']:
+                        base = base[::-1]
+                    want = [base]
+                if r == 'never':
+                    R5.ok(inst + ':never-site', nontrivial=False)       # reported by C10.D2
+                    continue
+                if r == 'rejected':
+                    R5.violation(inst, 'ssefile:%s:%s:rejected' % (kstr, pk), 'the decoder rejects %s with prefix %s (%s), an IA-32 instruction' % (kstr, pk, npname), where(arch, c.row.node))
+                    continue
+                opm, adm, swap = r
+                if digit:
+                    msig = [KIND_E.get(adm, 'r/m from the %s table' % adm)]
+                else:
+                    msig = [KIND_G.get(opm, 'reg from the %s file' % opm), KIND_E.get(adm, 'r/m with %s addressing (general registers)' % adm)]
+                    if swap:
+                        msig.reverse()
+                if sig_ok(msig, want):
+                    R5.ok(inst, sample='%s %s: %s' % (kstr, npname, ','.join(msig)))
+                else:
+                    R5.violation(inst, 'ssefile:%s:%s:%s' % (kstr, pk, ','.join(msig)), 'with prefix %s the decoder reads the operands of %s (%s) as %s; IA-32: %s (ref line %d)'
+                                 % (pk, kstr, npname, ','.join(msig), ' | '.join(','.join(a) for a in want), ent['line']), where(arch, chain),
+                                 witness='66 0f d6 c1 renders movq ecx, xmm0' if kstr == '0F D6' else None)
+
 
 MUTANTS = [
+    ('sse-pi2ps-file', 'miasmx/arch/ia32_arch.py', "                        elif '#pi2ps' in m.name:\n                            self.opmode = xmm\n                            if read_prefix == [] or read_prefix == [0x66]:\n                                self.admode = mm", "                        elif '#pi2ps' in m.name:\n                            self.opmode = xmm\n                            if read_prefix == [] or read_prefix == [0x66]:\n                                self.admode = xmm", 'C01.D5'),
+    ('sse-digit-prefix', 'miasmx/arch/ia32_arch.py', "                    if read_prefix == []:\n                        self.admode = mm\n                    elif read_prefix == [0x66]:\n                        self.admode = xmm\n                re, modr", "                    if read_prefix == []:\n                        self.admode = xmm\n                    elif read_prefix == [0x66]:\n                        self.admode = mm\n                re, modr", 'C01.D5'),
     ('s32-not-narrowed', 'miasmx/arch/ia32_arch.py', "                    if self.opmode !=u32:\n                        if dib == u32: dib = u16\n                        if dib == s32: dib = s16\n                    l = struct.calcsize", "                    if self.opmode !=u32 and dib == u32: dib = u16\n                    l = struct.calcsize", 'C01.D3'),
     ('narrow-by-admode', 'miasmx/arch/ia32_arch.py', "                    if self.opmode !=u32:\n                        if dib == u32: dib = u16\n                        if dib == s32: dib = s16\n                    l = struct.calcsize", "                    if self.admode !=u32:\n                        if dib == u32: dib = u16\n                        if dib == s32: dib = s16\n                    l = struct.calcsize", 'C01.D3'),
     ('sib-scale', 'miasmx/arch/ia32_arch.py', "                    sib_rez[index][i] += 2**ss\n", "                    sib_rez[index][i] += 2*ss\n", 'C01.D4'),
